@@ -113,6 +113,9 @@ type hist struct {
 	replay  []map[string]any
 	sawArch bool
 	sawJail bool
+
+	servedSeen map[string]bool // "step/nonce/bytes" already given to the model as EServed
+	queryErr   map[string]bool
 }
 
 func effEst(e uint64) uint64 {
@@ -241,6 +244,7 @@ func (h *hist) submit(ctx sdk.Context, chain string, subj types.OutgoingTxBatch,
 // oracle: replay every genuine signature, with the subject it was made for, as evidence — in a
 // cache context that is thrown away.  Nobody may get jailed.
 func (h *hist) oracle(after string) {
+	h.queryAll(after)
 	for _, g := range h.confs {
 		cctx, _ := h.ctx.CacheContext()
 		before := h.jailed(cctx)
@@ -264,8 +268,82 @@ func (h *hist) oracle(after string) {
 	for cp := range h.issued {
 		b, _ := hex.DecodeString(cp)
 		if !h.in.SkywayKeeper.GetPastEthSignatureCheckpoint(h.ctx, b) {
-			h.run.Violate("C13:issued-checkpoint-not-archived", "a checkpoint published as BytesToSign is not in the archive ("+cp+")",
+			h.run.Violate("C13:issued-checkpoint-not-archived", "a checkpoint published for signing (stored BytesToSign or served by a batch query) is not in the archive ("+cp+")",
 				map[string]any{"kind": "evidence-history", "history": h.replay, "after": after, "checkpoint": cp})
+		}
+	}
+}
+
+// served records that a batch query of the real query server handed out batch b: its BytesToSign
+// is published for signing, whatever is in the store.  The model is told (EServed) and must agree.
+func (h *hist) served(how string, b types.OutgoingTxBatch, after string) {
+	hx := hex.EncodeToString(b.BytesToSign)
+	h.issued[hx] = true
+	h.run.Count("query-served", how)
+	tr, ok := h.cpTriple[hx]
+	if !ok {
+		// bytes never seen: the only thing they may be is a checkpoint of this batch
+		want, err := b.GetCheckpoint(h.curTid)
+		if err == nil && hex.EncodeToString(want) == hx {
+			tr = triple{h.tidID(h.curTid), h.bodyID(b), effEst(b.GasEstimate)}
+			h.note(b.BytesToSign, tr)
+		} else {
+			h.run.Violate("C13:query-serves-unknown-bytes", how+" serves BytesToSign that is no checkpoint the harness can account for ("+hx+")",
+				map[string]any{"kind": "evidence-history", "history": h.replay, "after": after, "query": how, "batch": b})
+			return
+		}
+	}
+	st := h.stored(b.BatchNonce)
+	if st != nil && hex.EncodeToString(st.BytesToSign) != hx {
+		h.run.Count("query-served", how+": NOT the stored bytes")
+	}
+	key := fmt.Sprintf("%d/%d/%s", len(h.replay), b.BatchNonce, hx)
+	if h.servedSeen[key] {
+		return
+	}
+	h.servedSeen[key] = true
+	h.steps = append(h.steps, fmt.Sprintf("C13.EServed %d %s", b.BatchNonce, tr.coq()))
+}
+
+// queryAll asks the real query server everything a relayer can ask about batches.
+func (h *hist) queryAll(after string) {
+	k := h.in.SkywayKeeper
+	qerr := func(q string, err error) {
+		if err != nil && !h.queryErr[q] {
+			h.queryErr[q] = true
+			h.run.Count("query-error", q+": "+strings.SplitN(err.Error(), ":", 2)[0])
+		}
+	}
+	for v := 0; v < 5; v++ {
+		r, err := k.LastPendingBatchRequestByAddr(h.ctx, &types.QueryLastPendingBatchRequestByAddrRequest{Address: keeper.AccAddrs[v].String()})
+		qerr("LastPendingBatchRequestByAddr", err)
+		if err == nil {
+			for _, b := range r.Batch {
+				h.served("LastPendingBatchRequestByAddr", b, after)
+			}
+		}
+		g, err := k.LastPendingBatchForGasEstimation(h.ctx, &types.QueryLastPendingBatchForGasEstimationRequest{Address: keeper.ValAddrs[v], ChainReferenceId: chainName})
+		qerr("LastPendingBatchForGasEstimation", err)
+		if err == nil {
+			for _, b := range g.Batch {
+				h.served("LastPendingBatchForGasEstimation", b, after)
+			}
+		}
+	}
+	for _, chain := range []string{chainName, ""} {
+		r, err := k.OutgoingTxBatches(h.ctx, &types.QueryOutgoingTxBatchesRequest{ChainReferenceId: chain})
+		qerr("OutgoingTxBatches", err)
+		if err == nil {
+			for _, b := range r.Batches {
+				h.served("OutgoingTxBatches", b, after)
+			}
+		}
+	}
+	for _, n := range h.liveNonces() {
+		r, err := k.BatchRequestByNonce(h.ctx, &types.QueryBatchRequestByNonceRequest{Nonce: n, ContractAddress: h.token.GetAddress().Hex()})
+		qerr("BatchRequestByNonce", err)
+		if err == nil {
+			h.served("BatchRequestByNonce", r.Batch, after)
 		}
 	}
 }
@@ -357,7 +435,8 @@ func newHist(t *testing.T, run *emit.Run) *hist {
 	in.Context = ctx
 	h := &hist{t: t, run: run, r: run.Rng, in: in, ctx: ctx, ms: keeper.NewMsgServerImpl(in.SkywayKeeper),
 		keyAddr: map[string]int{}, tids: map[string]int{}, bodies: map[string]int{}, cpTriple: map[string]triple{},
-		tripleCp: map[triple]string{}, issued: map[string]bool{}, known: map[uint64]types.InternalOutgoingTxBatch{}}
+		tripleCp: map[triple]string{}, issued: map[string]bool{}, known: map[uint64]types.InternalOutgoingTxBatch{},
+		servedSeen: map[string]bool{}, queryErr: map[string]bool{}}
 	tok, err := types.NewEthAddress(erc20)
 	if err != nil {
 		t.Fatal(err)
@@ -506,18 +585,56 @@ func (h *hist) sign(key int, cp []byte) string {
 	return s
 }
 
-// opConfirm: a validator signs the published BytesToSign of a stored batch with its registered key
-// and sends MsgConfirmBatch.  Not a model step (evidence does not look at confirmations).
+// opConfirm: a validator asks the chain what to sign -- the real query server, as a pigeon does --
+// signs the BytesToSign it is given with its registered key and sends MsgConfirmBatch.  That
+// signature is genuine whatever ConfirmBatch says.  Sometimes (not genuine, not replayed by the
+// oracle) the validator is "eager": it computes the checkpoint for the id in force itself.
 func (h *hist) opConfirm() {
 	live := h.liveNonces()
 	if len(live) == 0 {
 		return
 	}
-	n := live[h.r.Intn(len(live))]
-	b := h.stored(n)
 	v := h.r.Intn(5)
 	key := h.regKey[v]
-	sgb, err := types.NewEthereumSignature(b.BytesToSign, h.keys[key])
+	var ext types.OutgoingTxBatch
+	how := ""
+	switch h.r.Intn(4) {
+	case 0: // by nonce
+		n := live[h.r.Intn(len(live))]
+		r, err := h.in.SkywayKeeper.BatchRequestByNonce(h.ctx, &types.QueryBatchRequestByNonceRequest{Nonce: n, ContractAddress: h.token.GetAddress().Hex()})
+		if err != nil {
+			h.t.Fatalf("BatchRequestByNonce: %v", err)
+		}
+		ext, how = r.Batch, "BatchRequestByNonce"
+	case 1: // the relay query (only batches with an estimate)
+		r, err := h.in.SkywayKeeper.OutgoingTxBatches(h.ctx, &types.QueryOutgoingTxBatchesRequest{ChainReferenceId: chainName})
+		if err == nil && len(r.Batches) > 0 {
+			ext, how = r.Batches[h.r.Intn(len(r.Batches))], "OutgoingTxBatches"
+		}
+	}
+	if how == "" {
+		r, err := h.in.SkywayKeeper.LastPendingBatchRequestByAddr(h.ctx, &types.QueryLastPendingBatchRequestByAddrRequest{Address: keeper.AccAddrs[v].String()})
+		if err != nil {
+			h.t.Fatalf("LastPendingBatchRequestByAddr: %v", err)
+		}
+		if len(r.Batch) == 0 {
+			return // nothing pending for this validator
+		}
+		ext, how = r.Batch[0], "LastPendingBatchRequestByAddr"
+	}
+	h.served(how, ext, "confirm")
+	n := ext.BatchNonce
+	toSign := ext.BytesToSign
+	eager := h.r.Intn(6) == 0
+	if eager {
+		cp, err := ext.GetCheckpoint(h.curTid)
+		if err != nil {
+			h.t.Fatal(err)
+		}
+		toSign = cp
+		h.note(cp, triple{h.tidID(h.curTid), h.bodyID(ext), effEst(ext.GasEstimate)})
+	}
+	sgb, err := types.NewEthereumSignature(toSign, h.keys[key])
 	if err != nil {
 		h.t.Fatal(err)
 	}
@@ -527,15 +644,45 @@ func (h *hist) opConfirm() {
 		Orchestrator: keeper.AccAddrs[v].String(), Signature: sig,
 		Metadata: valsettypes.MsgMetadata{Creator: keeper.AccAddrs[v].String(), Signers: []string{keeper.AccAddrs[v].String()}},
 	})
-	ext := b.ToExternal()
-	tr, ok := h.cpTriple[hex.EncodeToString(b.BytesToSign)]
+	tr, ok := h.cpTriple[hex.EncodeToString(toSign)]
 	if !ok {
-		h.t.Fatalf("BytesToSign of a stored batch was never published?")
+		return // reported by served()
 	}
-	h.confs = append(h.confs, genuine{Val: v, Key: key, Sig: sig, Subject: ext, Cp: hex.EncodeToString(b.BytesToSign), Accepted: err == nil, tr: tr})
+	sigFail := err != nil && strings.Contains(err.Error(), "signature verification failed")
+	pastSig := err == nil || strings.Contains(err.Error(), "duplicate") || strings.Contains(err.Error(), "already confirmed")
+	if sigFail || pastSig {
+		h.steps = append(h.steps, fmt.Sprintf("C13.EConfirm %d %s %s", n, tr.coq(), emit.Bool(!sigFail)))
+	} else {
+		h.run.Count("confirm-other-error", strings.SplitN(err.Error(), ":", 2)[0])
+	}
+	st := h.stored(n)
+	redeployed := false
+	if st != nil {
+		c, _ := st.GetCheckpoint(h.curTid)
+		redeployed = hex.EncodeToString(c) != hex.EncodeToString(st.BytesToSign)
+	}
+	if eager {
+		h.run.Count("op", "confirm-eager(recomputed checkpoint)")
+		if redeployed {
+			// issued <> verified on the real code: what ConfirmBatch accepts was never published
+			h.run.Count("issued-vs-verified", fmt.Sprintf("after redeploy: signature over the recomputed (unpublished) checkpoint: sig check passed=%v", !sigFail))
+			cctx, _ := h.ctx.CacheContext()
+			before := h.jailed(cctx)
+			h.submit(cctx, chainName, ext, sig)
+			h.run.Count("issued-vs-verified", fmt.Sprintf("after redeploy: that signature replayed as evidence jails its signer=%v", len(h.jailed(cctx)) > len(before)))
+		}
+		h.replay = append(h.replay, map[string]any{"op": "confirm-eager", "nonce": n, "validator": v, "key": key, "error": fmt.Sprint(err)})
+		h.oracle("confirm-eager")
+		return
+	}
+	if redeployed {
+		h.run.Count("issued-vs-verified", fmt.Sprintf("after redeploy: signature over the served (published) BytesToSign: sig check passed=%v", !sigFail))
+	}
+	h.confs = append(h.confs, genuine{Val: v, Key: key, Sig: sig, Subject: ext, Cp: hex.EncodeToString(toSign), Accepted: err == nil, tr: tr})
 	h.run.Count("op", "confirm")
 	h.run.Count("confirm-accepted", fmt.Sprint(err == nil))
-	h.replay = append(h.replay, map[string]any{"op": "confirm", "nonce": n, "validator": v, "key": key, "accepted": err == nil})
+	h.run.Count("confirm-read-from", how)
+	h.replay = append(h.replay, map[string]any{"op": "confirm", "read_from": how, "nonce": n, "validator": v, "key": key, "signed": hex.EncodeToString(toSign), "accepted": err == nil})
 	h.oracle("confirm")
 }
 
